@@ -91,11 +91,10 @@ def create_request(
         id = str(uuid.uuid4())
 
     # Add progress token to params._meta if provided
+    # (on a copy: the caller's dict may go into other requests as well)
     if progress_token is not None:
-        if params is None:
-            params = {}
-        if "_meta" not in params:
-            params["_meta"] = {}
+        params = dict(params) if params is not None else {}
+        params["_meta"] = dict(params["_meta"]) if "_meta" in params else {}
         params["_meta"]["progressToken"] = progress_token
 
     return JSONRPCRequest(jsonrpc="2.0", id=id, method=method, params=params)
